@@ -407,6 +407,31 @@ func runC12(w *W) {
 		}
 	}
 	rec(nil)
+	// (4) the same pattern text on different fields, in one rule and across the rules of a list (and, since the cases of
+	// one worker process run one after the other, across rule sets)
+	same := []map[interface{}]interface{}{
+		{"action": "drop", "fromnode": "/n1.*/", "tonode": "/n1.*/"},
+		{"action": "reject", "fromservice": "/s.x/", "toservice": "/s.x/"},
+		{"action": "accept", "fromnode": "/n1/"},
+		{"action": "reject", "tonode": "/n1/"},
+		{"action": "accept", "fromservice": "/s1.*/"},
+		{"action": "drop", "toservice": "/s1.*/"},
+		{"action": "drop", "tonode": "/n1.*/"},
+		{"action": "accept", "fromnode": "/n1.*/"},
+		{"action": "drop"},
+	}
+	for i := range same {
+		i := i
+		w.Case(fmt.Sprintf("same-pattern rule %d", i), func() CaseOut { return checkFwList([]map[interface{}]interface{}{same[i]}, pkts) })
+		for j := range same {
+			j := j
+			w.Case(fmt.Sprintf("same-pattern list [%d %d]", i, j), func() CaseOut {
+				o := checkFwList([]map[interface{}]interface{}{same[i], same[j]}, pkts)
+				o.Nontrivial = true
+				return o
+			})
+		}
+	}
 	w.Case("empty list", func() CaseOut { return checkFwList(nil, pkts) })
 	runC12MeshAll(w)
 }
@@ -416,7 +441,7 @@ func init() {
 		ID:        "C12",
 		Level:     "exploration",
 		Technique: "bounded-exhaustive enumeration of rule lists x packets against a reference interpreter (real ParseFirewallRules + rule functions; real nodes in a synctest bubble for origin/transit/destination)",
-		Rule: "every single rule over the product of 10 pattern kinds per field x 7 actions (quick: at most 2 exotic kinds per rule), a menu of odd keys/values, and every ordered list of length <=2 (quick) / <=3 (thorough) over a 12-rule core; each evaluated on all 16 packets (2 values per field). " +
+		Rule: "every single rule over the product of 10 pattern kinds per field x 7 actions (quick: at most 2 exotic kinds per rule), a menu of odd keys/values, and every ordered list of length <=2 (quick) / <=3 (thorough) over a 12-rule core; every rule and every ordered pair from 9 rules that use one pattern text on different fields; each evaluated on all 16 packets (2 values per field). " +
 			"A case is one rule list; it is non-trivial when it has at least one rule (single rules) or more than one rule (lists); cases are distinct by construction (each list enumerated once). " +
 			"Level 2: every ordered list of <=2 rules (thorough: a third of the triples) over a 10-rule menu installed at the origin, the transit node or the destination of a real 3-node chain in a synctest bubble, one packet in each direction: delivery / `blocked by firewall` notice from the deciding node / silence must equal what the first matching rule dictates at every node the packet and the returning notice touch.",
 		Assumptions: []string{
